@@ -433,12 +433,26 @@ def archive_oracle_factory(kind):
     return oracle
 
 
+def _valid_gzip_prefixes(data):
+    import gzip
+    import zlib
+    out = []
+    for k in range(1, len(data)):
+        try:
+            gzip.decompress(data[:k])
+        except (EOFError, OSError, zlib.error):
+            continue
+        out.append(k)
+    return out
+
+
 def archive_enum(kind):
     def enum(tier, seed, shard, nshards, stats):
         rnd = random.Random('%s:%s' % (seed, kind))
         narch = -(-(2 if tier == 'quick' else 6) // nshards)
         for ia in range(narch):
-            specs, _ = _obs_list(rnd, rnd.choice([1, 2, 3]))
+            # (csv: from the second archive on frames with many rows - writers may emit long tables in several pieces)
+            specs, _ = _obs_list(rnd, rnd.choice([18, 24, 40]) if (kind == 'csv_gz' and ia >= 1) else rnd.choice([1, 2, 3]))
             with common.tempdir('verif_c18_') as d:
                 fname = archive_write(kind, specs, d)
                 data = open(fname, 'rb').read()
@@ -447,7 +461,9 @@ def archive_enum(kind):
                 if tier == 'thorough' or ia == 0:
                     offs, full = list(range(n)), True
                 else:
-                    offs, full = sorted(set(range(0, 40)) | set(range(n - 40, n)) | set(rnd.sample(range(n), min(n, 200)))), False
+                    # sampled offsets + every offset at which the prefix is by itself a complete gzip stream (the cuts a reader
+                    # that trusts the container cannot notice)
+                    offs, full = sorted(set(range(0, 40)) | set(range(n - 40, n)) | set(rnd.sample(range(n), min(n, 200))) | set(_valid_gzip_prefixes(data))), False
                 for k in offs:
                     spec = {'kind': kind, 'obs': specs, 'cut': k}
                     stats.begin(spec)
